@@ -3,9 +3,18 @@
    Par/ParWorkProofs.v, with Print Assumptions beneath it.  [reachable n children inits s]: s is
    reached from the state right after Do's prologue (n runners at the loop head, the initial
    Adds done) by some schedule of atomic steps; every theorem is for all n >= work_do_min_n,
-   all item graphs [children], all initial items and all schedules. *)
+   all item graphs [children], all initial items and all schedules.
+
+   The second half is about SEVERAL Work values in one program (Par/ParWorkMulti.v).  [wreachable cfgs ws]: the world
+   ws of Work objects with configurations cfgs (object k: Do(wn), item graph wchildren, initial Adds winits; wU a finite
+   universe of its items) is reached from all objects freshly filled by some interleaving of steps of the objects --
+   used one after the other, filled together, run concurrently: all are such interleavings.  [nreachable n children
+   inits inner ns]: ns is reached by the program in which f(i) of the outer Work, after its Adds, runs the fresh inner
+   Work [inner i] and returns when that Do returned.  [good cf]: n >= work_do_min_n and wU is duplicate-free, contains
+   the initial items and is closed under children. *)
 From Coq Require Import List Arith.
 From GI Require Import Gen.ParConsts Par.ParWork Par.ParWorkProofs.
+From GI Require Import Par.ParWorkMulti Par.ParWorkMultiProofs.
 Import ListNotations.
 
 Theorem C09_runner_count : forall n, work_do_min_n <= n ->
@@ -129,3 +138,127 @@ Theorem C09_can_finish : forall (n : nat) (children : nat -> list nat) (inits : 
     run n children sch s = Some s' /\ all_done s' = true /\ length sch <= phi n children U s.
 Proof. exact can_finish. Qed.
 Print Assumptions C09_can_finish.
+
+(* ---------------------------------------------------------------- several Work values in one program *)
+
+Theorem C09_works_independent : forall (cfgs : list wcfg) (ws : world) (k : nat) (tc : nat * nat) (ws' : world),
+  wstep cfgs ws (k, tc) = Some ws' ->
+  length ws' = length ws /\
+  (forall k', k' <> k -> nth_error ws' k' = nth_error ws k') /\
+  (exists cf s s', nth_error cfgs k = Some cf /\ nth_error ws k = Some s /\ cfg_step cf s tc = Some s' /\
+                   nth_error ws' k = Some s').
+Proof. exact works_independent. Qed.
+Print Assumptions C09_works_independent.
+
+Theorem C09_world_is_product : forall (cfgs : list wcfg) (ws : world),
+  wreachable cfgs ws <-> Forall2 (fun cf s => reachable (wn cf) (wchildren cf) (winits cf) s) cfgs ws.
+Proof. exact world_reachable_iff. Qed.
+Print Assumptions C09_world_is_product.
+
+Theorem C09_each_work_correct_among_others : forall cfgs : list wcfg, Forall good cfgs ->
+  forall ws : world, wreachable cfgs ws ->
+  forall (k : nat) (cf : wcfg) (s : state), nth_error cfgs k = Some cf -> nth_error ws k = Some s ->
+  NoDup (started s) /\ NoDup (finished s) /\
+  (forall i, In i (started s) \/ In i (finished s) -> reach (wchildren cf) (winits cf) i) /\
+  cnt is_run (pcs s) <= wn cf /\
+  (nth_error (pcs s) 0 = Some Done ->
+     todo s = [] /\ cnt is_run (pcs s) = 0 /\ forall i, reach (wchildren cf) (winits cf) i <-> In i (finished s)).
+Proof. exact world_objects_correct. Qed.
+Print Assumptions C09_each_work_correct_among_others.
+
+Theorem C09_world_no_deadlock : forall cfgs : list wcfg, Forall good cfgs ->
+  forall ws : world, wreachable cfgs ws ->
+  wall_done ws = true \/ (exists l ws', wstep cfgs ws l = Some ws').
+Proof. exact world_no_deadlock. Qed.
+Print Assumptions C09_world_no_deadlock.
+
+Theorem C09_world_terminates : forall cfgs : list wcfg, Forall good cfgs ->
+  forall (ws : world) (l : nat * (nat * nat)) (ws' : world), wreachable cfgs ws ->
+  wstep cfgs ws l = Some ws' -> wphi cfgs ws' < wphi cfgs ws.
+Proof. exact world_phi_decreases. Qed.
+Print Assumptions C09_world_terminates.
+
+Theorem C09_world_schedules_finite : forall cfgs : list wcfg, Forall good cfgs ->
+  forall (sch : list (nat * (nat * nat))) (ws ws' : world), wreachable cfgs ws ->
+  wrun cfgs sch ws = Some ws' -> length sch + wphi cfgs ws' <= wphi cfgs ws.
+Proof. exact world_schedules_finite. Qed.
+Print Assumptions C09_world_schedules_finite.
+
+Theorem C09_world_can_finish : forall cfgs : list wcfg, Forall good cfgs ->
+  forall ws : world, wreachable cfgs ws ->
+  exists sch ws', wrun cfgs sch ws = Some ws' /\ wall_done ws' = true /\ length sch <= wphi cfgs ws.
+Proof. exact world_can_finish. Qed.
+Print Assumptions C09_world_can_finish.
+
+(* ---------------------------------------------------------------- Works nested inside f of another Work *)
+
+Theorem C09_nested_projection : forall (n : nat) (children : nat -> list nat) (inits : list nat) (inner : nat -> wcfg),
+  work_do_min_n <= n -> (forall i, good (inner i)) ->
+  forall ns : nstate, nreachable n children inits inner ns ->
+  reachable n children inits (outer ns) /\
+  (forall i si, inn ns i = Some si ->
+     reachable (wn (inner i)) (wchildren (inner i)) (winits (inner i)) si /\ In i (started (outer ns))) /\
+  (forall i, In i (finished (outer ns)) -> exists si, inn ns i = Some si /\ nth_error (pcs si) 0 = Some Done).
+Proof. exact nested_projection. Qed.
+Print Assumptions C09_nested_projection.
+
+Theorem C09_nested_frame : forall (n : nat) (children : nat -> list nat) (inner : nat -> wcfg)
+  (ns : nstate) (l : nlabel) (ns' : nstate), nstep n children inner ns l = Some ns' ->
+  match l with
+  | LInner i _ _ => outer ns' = outer ns /\ forall x, x <> i -> inn ns' x = inn ns x
+  | LOuter _ _ => forall x sx, inn ns x = Some sx -> inn ns' x = Some sx
+  end.
+Proof. exact nested_frame. Qed.
+Print Assumptions C09_nested_frame.
+
+Theorem C09_nested_do_returns_when_all_levels_done :
+  forall (n : nat) (children : nat -> list nat) (inits : list nat) (inner : nat -> wcfg),
+  work_do_min_n <= n -> (forall i, good (inner i)) ->
+  forall ns : nstate, nreachable n children inits inner ns -> nth_error (pcs (outer ns)) 0 = Some Done ->
+  forall i, reach children inits i ->
+  exists si, inn ns i = Some si /\ nth_error (pcs si) 0 = Some Done /\ todo si = [] /\ cnt is_run (pcs si) = 0 /\
+             (forall x, reach (wchildren (inner i)) (winits (inner i)) x <-> In x (finished si)) /\ NoDup (finished si).
+Proof. exact nested_do_returns. Qed.
+Print Assumptions C09_nested_do_returns_when_all_levels_done.
+
+Theorem C09_nested_no_deadlock : forall (n : nat) (children : nat -> list nat) (inits : list nat) (inner : nat -> wcfg),
+  work_do_min_n <= n -> (forall i, good (inner i)) ->
+  forall ns : nstate, nreachable n children inits inner ns ->
+  nfinal ns = true \/ (exists l ns', nstep n children inner ns l = Some ns').
+Proof. exact nested_no_deadlock. Qed.
+Print Assumptions C09_nested_no_deadlock.
+
+Theorem C09_nested_final_state : forall (n : nat) (children : nat -> list nat) (inits : list nat) (inner : nat -> wcfg),
+  work_do_min_n <= n -> (forall i, good (inner i)) ->
+  forall ns : nstate, nreachable n children inits inner ns -> nfinal ns = true ->
+  all_done (outer ns) = true /\
+  (forall i si, inn ns i = Some si -> all_done si = true) /\
+  (forall i, reach children inits i -> exists si, inn ns i = Some si /\ all_done si = true /\
+     (forall x, reach (wchildren (inner i)) (winits (inner i)) x <-> In x (finished si))).
+Proof. exact nested_final_spec. Qed.
+Print Assumptions C09_nested_final_state.
+
+Theorem C09_nested_terminates : forall (n : nat) (children : nat -> list nat) (inits : list nat) (inner : nat -> wcfg)
+  (U : list nat), work_do_min_n <= n -> NoDup U -> (forall i, In i inits -> In i U) ->
+  (forall i c, In i U -> In c (children i) -> In c U) -> (forall i, good (inner i)) ->
+  forall (ns : nstate) (l : nlabel) (ns' : nstate), nreachable n children inits inner ns ->
+  nstep n children inner ns l = Some ns' -> nphi n children inner U ns' < nphi n children inner U ns.
+Proof. exact nested_phi_decreases. Qed.
+Print Assumptions C09_nested_terminates.
+
+Theorem C09_nested_schedules_finite : forall (n : nat) (children : nat -> list nat) (inits : list nat)
+  (inner : nat -> wcfg) (U : list nat), work_do_min_n <= n -> NoDup U -> (forall i, In i inits -> In i U) ->
+  (forall i c, In i U -> In c (children i) -> In c U) -> (forall i, good (inner i)) ->
+  forall (sch : list nlabel) (ns ns' : nstate), nreachable n children inits inner ns ->
+  nrun n children inner sch ns = Some ns' -> length sch + nphi n children inner U ns' <= nphi n children inner U ns.
+Proof. exact nested_schedules_finite. Qed.
+Print Assumptions C09_nested_schedules_finite.
+
+Theorem C09_nested_can_finish : forall (n : nat) (children : nat -> list nat) (inits : list nat)
+  (inner : nat -> wcfg) (U : list nat), work_do_min_n <= n -> NoDup U -> (forall i, In i inits -> In i U) ->
+  (forall i c, In i U -> In c (children i) -> In c U) -> (forall i, good (inner i)) ->
+  forall ns : nstate, nreachable n children inits inner ns ->
+  exists sch ns', nrun n children inner sch ns = Some ns' /\ nfinal ns' = true /\
+                  length sch <= nphi n children inner U ns.
+Proof. exact nested_can_finish. Qed.
+Print Assumptions C09_nested_can_finish.
